@@ -40,6 +40,8 @@ def to_file_doc(d):
         gd = {"name": "FxAgent", "module": MOD, "number": g["n"], "params": {"j": j}}
         if g["pre"]:
             gd["pre_agent_init"] = hk("pre_agents", j)
+            if j == 1 and d.get("swap"):
+                gd["pre_agent_init"]["params"]["swap_env"] = True
         if g["post"]:
             gd["post_agent_init"] = hk("post_agents", j)
         doc["agents"].append(gd)
@@ -92,7 +94,7 @@ def all_descs(max_sys, max_groups, max_n):
                         for gs in itertools.product(grp_opts, repeat=ng):
                             systems = [dict(s, id="s%d" % (k * 7 % 5), prio=(3 * k + ns) % 4 - 1, freq=1 + k % 2, start=k, end=999999 if k % 2 else 5 + k)
                                        for k, s in enumerate(ss)]
-                            out.append({"pre": pre, "post": post, "closed": len(out) % 3 == 1, "systems": systems,
+                            out.append({"pre": pre, "post": post, "closed": len(out) % 3 == 1, "swap": len(out) % 4 == 2, "systems": systems,
                                         "groups": [dict(g) for g in gs]})
     return out
 
@@ -102,7 +104,7 @@ def random_desc(rng, max_sys=4, max_groups=4, max_n=4):
     systems = [{"pre": rng.random() < 0.5, "post": rng.random() < 0.5, "id": i, "prio": rng.choice([-5, -1, 0, 0, 1, 9]),
                 "freq": rng.randint(1, 3), "start": rng.choice([0, 0, 2, -1]), "end": rng.choice([999999, 3, 10])} for i in ids]
     groups = [{"pre": rng.random() < 0.5, "post": rng.random() < 0.5, "n": rng.randint(0, max_n)} for _ in range(rng.randint(0, max_groups))]
-    return {"pre": rng.random() < 0.5, "post": rng.random() < 0.5, "closed": rng.random() < 0.3, "systems": systems, "groups": groups}
+    return {"pre": rng.random() < 0.5, "post": rng.random() < 0.5, "closed": rng.random() < 0.3, "swap": rng.random() < 0.3, "systems": systems, "groups": groups}
 
 
 def tamper(trace, rng):
